@@ -161,7 +161,7 @@ def make_formatter(cfg):
     raise ValueError(cls)
 
 
-DIRTY = '<div><pre><b>x<code>'      # leaves level 4, inPreformatted 2, four open elements behind
+DIRTY = '<!DOCTYPE dirty><div><pre><b>x<code>'      # leaves a doctype, level 4, inPreformatted 2, four open elements behind
 
 
 def run_formatter(cfg, text, via='str'):
@@ -357,6 +357,8 @@ class DocGen(object):
                 out.append(self.text(in_pre=in_pre))
             elif x < 0.48:
                 out.append('</%s>' % r.choice(('zzz', 'div', 'span', 'pre', 'b')))     # stray or early close
+            elif x < 0.495:
+                out.append(r.choice(('<!DOCTYPE second>', '<?pi x?>', '<![CDATA[x]]>')))  # declarations / PI in the body
             else:
                 out.append(self.element(depth, in_pre))
         return ''.join(out)
